@@ -5,9 +5,11 @@ set -e
 cd /verif
 export GOFLAGS=-mod=mod GOPROXY=off GOSUMDB=off GOTOOLCHAIN=local
 mkdir -p _build/bin _build/tables _build/work evidence replays
-for t in constgen limbgen effgen; do
+for t in constgen limbgen asmgen bigintgen effgen; do
   if [ $t = effgen ] && ! grep -q Gen/EffectsIR.v coq/_CoqProject; then continue; fi
   if [ $t = limbgen ] && ! grep -q Gen/FfRoutines.v coq/_CoqProject; then continue; fi
+  if [ $t = bigintgen ] && ! grep -q Gen/BigIntRoutines.v coq/_CoqProject; then continue; fi
+  if [ $t = asmgen ] && ! grep -q Gen/FfAsm.v coq/_CoqProject; then continue; fi
   if [ -d tools/$t ]; then (cd tools/$t && go build -o /verif/_build/bin/$t .); /verif/_build/bin/$t /repo /verif; fi
 done
 cd /verif/coq
